@@ -17,7 +17,7 @@ hex code points separated by `.` (`x61.5c.62`; the empty string is `x`).
   rel <op> <vt|-> <now> <r> <v>       -> true|false|none            Spec.rel on Spec.operands
   cel <str>                           -> cel|notcel|nolex           XlateCel.lexCel + Cel.Grammar.parse
 
-values (emit): S<str> | I<int> | B0 | B1 | LS <n> <str>… | LI <n> <int>…
+values (emit): S<str> | I<int> | B0 | B1 | LS <n> <str>… | LI <n> <int>… | LU <k> <hex>… <n> <str>…
 values (dec/rel): S<str> | I<int> | B0 | B1 | N | L <n> <atom>…
 The tables are the regenerated ones (Cel.Gen.XlateTables).
 -/
@@ -79,6 +79,16 @@ def parsePV : List String → Option PV
     if rest.length ≠ n then none
     let xs ← rest.mapM decStr
     pure (.strs xs)
+  | "LU" :: k :: rest => do
+    -- LU <k> <k code points (hex) of non-printable characters> <n> <n strings>
+    let k ← k.toNat?
+    if rest.length < k + 1 then none
+    let np ← (rest.take k).mapM (fun h => (hexNat? h).bind fun n => if n.isValidChar then some (Char.ofNat n) else none)
+    let n ← (rest.drop k).head?.bind (·.toNat?)
+    let items := rest.drop (k + 1)
+    if items.length ≠ n then none
+    let xs ← items.mapM decStr
+    pure (.strsU np xs)
   | "LI" :: n :: rest => do
     let n ← n.toNat?
     if rest.length ≠ n then none
